@@ -13,6 +13,10 @@ type marshalMachineTransform struct {
 	tagged   bool // Used to apply tag to first step (without forcing delegate to know).
 	tag      int
 	first    bool // This resets; 'tagged' persists (because it's type info).
+
+	// Type of the serial form, from the atlas entry.  The delegate handles it on a
+	// slab row of its own, requisitioned on Reset and released when it is done.
+	wire_rt reflect.Type
 }
 
 func (mach *marshalMachineTransform) Reset(slab *marshalSlab, rv reflect.Value, _ reflect.Type) error {
@@ -21,11 +25,15 @@ func (mach *marshalMachineTransform) Reset(slab *marshalSlab, rv reflect.Value, 
 		return err
 	}
 	mach.first = true
+	mach.delegate = slab.requisitionMachine(mach.wire_rt)
 	return mach.delegate.Reset(slab, tr_rv, tr_rv.Type())
 }
 
 func (mach *marshalMachineTransform) Step(driver *Marshaller, slab *marshalSlab, tok *Token) (done bool, err error) {
 	done, err = mach.delegate.Step(driver, slab, tok)
+	if done && err == nil {
+		slab.release()
+	}
 	if mach.first && mach.tagged {
 		tok.Tagged = true
 		tok.Tag = mach.tag
